@@ -61,6 +61,14 @@ func genEmit(t *rapid.T) EmitCase {
 					// goes to everybody
 					m["to"] = rapid.SampledFrom([]interface{}{42.0, true, map[string]interface{}{"mid": "billing"}}).Draw(t, fmt.Sprintf("oddtov.%s.%d", name, i))
 				}
+				if rapid.IntRange(0, 4).Draw(t, fmt.Sprintf("oddkey.%s.%d", name, i)) == 2 {
+					// properties that mean something in messages to the
+					// crew's service machines, or in the conventions of
+					// specifications; in a message from a machine to
+					// whom it may concern they are data
+					kv := rapid.SampledFrom([][2]interface{}{{"emit", []interface{}{"later"}}, {"emit", true}, {"delete", []interface{}{"m2"}}, {"cancelTimer", "t"}, {"update", map[string]interface{}{}}}).Draw(t, fmt.Sprintf("oddkv.%s.%d", name, i))
+					m[kv[0].(string)] = kv[1]
+				}
 				pre = append(pre, sm.Op{Op: "emit", V: m})
 			}
 			n.Action.Ops = append(pre, n.Action.Ops...)
